@@ -478,4 +478,14 @@ impl Store {
     pub(super) fn verif_stats(&self) -> (usize, usize) {
         (self.slab.len(), self.ids.len())
     }
+
+    /// (stream id, ref_count) of every record that can no longer be reached
+    /// through the id map.
+    pub(super) fn verif_orphans(&self) -> Vec<(u32, usize)> {
+        self.slab
+            .iter()
+            .filter(|(k, s)| self.ids.get(&s.id).map(|i| i.0 as usize) != Some(*k))
+            .map(|(_, s)| (s.id.into(), s.ref_count))
+            .collect()
+    }
 }
